@@ -103,7 +103,7 @@ theorem Frame.trans {a b c : R} (h1 : Frame a b) (h2 : Frame b c) : Frame a c :=
 
 /-- the discard loop of `readExplicitData`: it only moves `dlo` forward along the decoder's
 output, up to `pos` -/
-theorem discard_spec (data : List UInt8) (base : Nat) (r : R) (n : Nat) :
+theorem discard_spec (data : List UInt8) (base : Nat) (r : R) (n : Nat) (hn : 0 < n) :
     r.dec = data.drop (r.dlo - base) → base ≤ r.dlo → r.dlo ≤ r.pos → r.phase = .B →
     r.err = none →
     match discard r n with
@@ -112,11 +112,11 @@ theorem discard_spec (data : List UInt8) (base : Nat) (r : R) (n : Nat) :
     | .ret r' none => Frame r r' ∧ r'.pos = r.pos ∧ r'.dec = [] ∧
         r'.dec = data.drop (r'.dlo - base) ∧ base ≤ r'.dlo ∧
         r'.dlo ≤ r'.pos ∧ r'.phase = .C ∧ r'.err = none
-    | .ret r' (some e) => r'.err = some e := by
+    | .ret r' (some e) => r'.err = some e ∧ e = .ueof := by
   fun_induction discard r n with
   | case1 r h want got r1 hemp htr =>
     intro _ _ _ _ _
-    rfl
+    exact ⟨rfl, rfl⟩
   | case2 r h want got r1 hemp htr =>
     intro hrel hb hle hB he
     have hgot : got ≤ r.pos - r.dlo := by
@@ -134,7 +134,15 @@ theorem discard_spec (data : List UInt8) (base : Nat) (r : R) (n : Nat) :
     · show r.dlo + got ≤ r.pos; omega
   | case3 r h want got r1 hemp hg =>
     intro _ _ _ _ _
-    rfl
+    exfalso
+    -- `got = 0` with a non-empty decoder output and `n > 0`, `pos > dlo`: impossible
+    have hne : r.dec ≠ [] := by
+      intro h0
+      have : r1.dec = [] := by show r.dec.drop got = []; rw [h0]; simp
+      rw [this] at hemp; simp at hemp
+    have hpos : 0 < r.dec.length := List.length_pos_iff.mpr hne
+    have : got = min (min n (r.pos - r.dlo)) r.dec.length := List.length_take
+    omega
   | case4 r h want got r1 hemp hg ih =>
     intro hrel hb hle hB he
     have hgot : got ≤ r.pos - r.dlo := by
@@ -184,9 +192,10 @@ theorem explicit_spec {k : Codec} {o q : ChunkReader.Reader} (hq : CRInv o q) (r
         (readExplicit r n).1.pos ≤ r.dhi ∧
         ((readExplicit r n).1.phase = .C ∨
           ((readExplicit r n).1.phase = .B ∧ 0 < (readExplicit r n).2.1.length))) ∧
-    (∀ e, (readExplicit r n).2.2 = some e → (readExplicit r n).1.err = some e) := by
+    (∀ e, (readExplicit r n).2.2 = some e → (readExplicit r n).1.err = some e ∧
+        (e = .ueof ∨ e = .tooLarge ∨ e = .truncated)) := by
   obtain ⟨c, data, tr, hc, hd, e1, e2, e3, e4, e5⟩ := hL
-  have hds := discard_spec data c.dLo r n e3 e2 hle hB he
+  have hds := discard_spec data c.dLo r n hn e3 e2 hle hB he
   generalize hout : readExplicit r n = out
   unfold readExplicit at hout
   cases hdisc : discard r n with
@@ -207,7 +216,7 @@ theorem explicit_spec {k : Codec} {o q : ChunkReader.Reader} (hq : CRInv o q) (r
       refine ⟨by intro i hi; simp at hi, by simp, (by intro h; cases h), ?_⟩
       intro e' h
       cases h
-      exact hds
+      exact ⟨hds.1, Or.inl hds.2⟩
   | goOn r2 =>
     rw [hdisc] at hout hds
     simp only at hout hds
@@ -226,7 +235,8 @@ theorem explicit_spec {k : Codec} {o q : ChunkReader.Reader} (hq : CRInv o q) (r
       simp only
       have hlen : (r2.dec.take (r2.dhi - r2.dlo)).length = r2.dhi - r2.dlo := by
         rw [List.length_take]; omega
-      refine ⟨?_, by rw [hlen]; omega, (by intro h; cases h), by intro e h; cases h; rfl⟩
+      refine ⟨?_, by rw [hlen]; omega, (by intro h; cases h),
+        by intro e h; cases h; exact ⟨rfl, Or.inr (Or.inl rfl)⟩⟩
       intro i hi
       rw [hlen] at hi
       rw [getD_take _ _ _ hi, hbyte i (by omega)]
@@ -247,7 +257,8 @@ theorem explicit_spec {k : Codec} {o q : ChunkReader.Reader} (hq : CRInv o q) (r
         · simp only [htr, ↓reduceIte] at hout
           subst hout
           simp only
-          exact ⟨hbytes, by rw [hlen]; omega, (by intro h; cases h), by intro e h; cases h; rfl⟩
+          exact ⟨hbytes, by rw [hlen]; omega, (by intro h; cases h),
+            by intro e h; cases h; exact ⟨rfl, Or.inr (Or.inr rfl)⟩⟩
         · simp only [htr, Bool.false_eq_true, ↓reduceIte] at hout
           subst hout
           simp only
